@@ -12,11 +12,22 @@ from fractions import Fraction
 VERIF = '/verif'
 COQ = os.path.join(VERIF, 'coq')
 GEN = os.path.join(COQ, 'gen')
-EVID = os.path.join(VERIF, 'evidence')
+# VERIF_EVIDENCE_DIR: runs against scratch copies (seeded changes, refactorings) keep their evidence out of /verif/evidence
+EVID = os.environ.get('VERIF_EVIDENCE_DIR') or os.path.join(VERIF, 'evidence')
 REPLAY = os.path.join(EVID, 'replay')
 REPO = os.environ.get('VERIF_REPO', '/repo')
 COQ_FLAGS = ['-Q', 'theories', 'Sismic', '-Q', 'proofs', 'SismicProofs', '-Q', 'props', 'SismicProps']
 NCPU = min(16, os.cpu_count() or 4)
+
+
+def coqc_parallelism():
+    """number of coqc processes evaluating case files at once: bounded by the cores and by the memory that is available
+    now (a case file needs 0.5-0.8 GB)"""
+    try:
+        avail_kb = int(next(l for l in open('/proc/meminfo') if l.startswith('MemAvailable')).split()[1])
+        return max(2, min(NCPU, int(avail_kb / 1e6 / 1.0)))
+    except Exception:  # noqa
+        return NCPU
 
 FORBIDDEN = re.compile(
     r'\b(Admitted|admit|Axiom|Axioms|Parameter|Parameters|Conjecture|Hypothesis|Variable|Variables|Abort)\b'
@@ -144,8 +155,9 @@ def coq_eval_files(prop, files, timeout=1200):
     env = dict(os.environ)
     pending = list(files)
     running = []
+    retried = set()
     while pending or running:
-        while pending and len(running) < NCPU:
+        while pending and len(running) < (1 if pending[0] in retried else coqc_parallelism()):
             f = pending.pop(0)
             p = subprocess.Popen(['timeout', str(timeout), 'coqc', '-noglob'] + COQ_FLAGS + [f], cwd=COQ,
                                  stdout=subprocess.PIPE, stderr=subprocess.STDOUT, text=True,
@@ -154,7 +166,15 @@ def coq_eval_files(prop, files, timeout=1200):
         f, p = running.pop(0)
         out, _ = p.communicate()
         out = '\n'.join(l for l in out.splitlines() if 'conda.cli.condarc' not in l)
+        if p.returncode != 0 and f not in retried and (p.returncode in (-9, 137, 124) or not out.strip()):
+            # killed from outside (out of memory, time limit under load) without a word from Coq: once more, alone
+            retried.add(f)
+            pending.append(f)
+            log('coqc on %s ended with code %s and no output: once more' % (os.path.basename(f), p.returncode))
+            continue
         res.append((f, p.returncode, out))
+    order = {f: i for i, f in enumerate(files)}
+    res.sort(key=lambda r: order[r[0]])         # callers rely on the order of `files`
     return res
 
 
@@ -214,6 +234,39 @@ TRUSTED_BASE = [
     'hand-written Gallina model, tied to /repo by the differential correspondence run of this check',
     'Python harness (generators, state capture, serialisation to Coq terms)',
 ]
+
+
+class Timeout(BaseException):
+    """raised by time_limit (a BaseException: `except Exception` in the library does not swallow it)"""
+
+
+class time_limit:
+    """SIGALRM guard around a call into the implementation (main thread only): a call that does not return - e.g. a
+    traversal of a statechart that an edit left cyclic - becomes an observable outcome instead of a check that never ends"""
+
+    def __init__(self, seconds):
+        self.seconds = seconds
+
+    def __enter__(self):
+        import signal
+        import threading
+        self.on = threading.current_thread() is threading.main_thread()
+        if not self.on:
+            return
+
+        def handler(signum, frame):
+            raise Timeout()
+        self.old = signal.signal(signal.SIGALRM, handler)
+        self.left = signal.alarm(self.seconds)
+
+    def __exit__(self, *a):
+        import signal
+        if self.on:
+            signal.alarm(0)
+            signal.signal(signal.SIGALRM, self.old)
+            if self.left:
+                signal.alarm(self.left)       # an enclosing limit goes on
+        return False
 
 
 def write_evidence(prop, tier, seed, t0, coverage, assumptions, violations, level='proof'):
@@ -282,10 +335,25 @@ class Verdict:
         return 1 if self.violations else 0
 
 
+PAIR_RE = re.compile(r'\(\s*(\d+)\s*(?:%[NZ])?\s*,\s*(\d+)\s*(?:%[NZ])?\s*\)')
+
+
 def parse_pairs(out):
-    """Parse `(i, m)` pairs printed by Eval vm_compute (N or Z literals)."""
+    """Parse the `(i, m)` pairs of every list (N * N) printed by Eval vm_compute.  Fail-closed: Coq's printer may break
+    lines anywhere (also right after an opening parenthesis), so white space is allowed everywhere, and whatever is left of
+    a printed list once its pairs are taken out must be separators only - a result that cannot be read back is not an
+    agreement."""
     flat = ' '.join(out.split())
-    return [(int(a), int(b)) for a, b in re.findall(r'\((\d+)(?:%[NZ])?,\s*(\d+)(?:%[NZ])?\)', flat)]
+    segs = re.findall(r'= \[(.*?)\] : list \((?:N|Z|nat) \* (?:N|Z|nat)\)', flat)
+    if not segs:
+        raise RuntimeError('no list of pairs in the output of coqc: %r' % flat[-300:])
+    pairs = []
+    for seg in segs:
+        rest = PAIR_RE.sub('', seg)
+        if rest.replace(';', '').strip():
+            raise RuntimeError('cannot read back a result printed by coqc: %r' % rest[:300])
+        pairs += [(int(a), int(b)) for a, b in PAIR_RE.findall(seg)]
+    return pairs
 
 
 def proof_stage(prop, proof_files, verdict):
